@@ -111,7 +111,7 @@ def _components(ctx, o):
 def rule_E(ctx):
     """C14.E geographic -> ECEF closed form"""
     f = ctx.prog.func(OC + '.GeoCoords.toECEFCoords')
-    w = Walker(f, loop_mode='skip')
+    w = Walker(f, loop_mode='skip', global_lookup=_module_lookup(ctx, OC))
     o = _single(f, w)
     vals = _components(ctx, o)
     lat = 'self.lat*math.pi/180.0'
@@ -148,7 +148,7 @@ def rule_I(ctx):
                   witness={'module constants read': used, 'numeric literals': lits,
                            'why': 'forward and inverse conversions would then use two slightly different ellipsoids: the round trip drifts by more than 1e-9 degree'},
                   node=fn.node, key='consts:' + fn.name)
-    w = Walker(f, loop_mode='skip')
+    w = Walker(f, loop_mode='skip', global_lookup=_module_lookup(ctx, OC))
     o = _single(f, w)
     vals = _components(ctx, o)
     b = '(Re*(1-Fe))'
@@ -197,10 +197,10 @@ def rule_R(ctx):
     """C14.R ECEF <-> ENU rotations"""
     f1 = ctx.prog.func(OC + '.ECEFCoords.toENUCoords')
     f2 = ctx.prog.func(OC + '.ENUCoords.toECEFCoords')
-    w = Walker(f1, loop_mode='skip')
+    w = Walker(f1, loop_mode='skip', global_lookup=_module_lookup(ctx, OC))
     o1 = _single(f1, w)
     v1 = _components(ctx, o1)
-    w2 = Walker(f2, loop_mode='skip', rel=w.rel)
+    w2 = Walker(f2, loop_mode='skip', rel=w.rel, global_lookup=_module_lookup(ctx, OC))
     o2 = _single(f2, w2)
     v2 = _components(ctx, o2)
     B = 'base.toECEFCoords()'
@@ -267,6 +267,8 @@ def _module_lookup(ctx, modname):
             return -v if v is not None else None
         return None
 
+    busy = set()
+
     def look(name):
         nd = m.consts.get(name)
         if nd is None or name in ('Re', 'Fe', 'Be', 'Ee'):
@@ -274,6 +276,15 @@ def _module_lookup(ctx, modname):
         v = num(nd)
         if v is not None:
             return v
+        if isinstance(nd, (ast.BinOp, ast.UnaryOp, ast.Call, ast.Attribute)) and name not in busy:
+            # a constant given by an expression (RAD2DEG = 180.0 / math.pi): its symbolic value
+            busy.add(name)
+            try:
+                return Walker(None, loop_mode='skip', global_lookup=look).ex(nd, State())
+            except Exception:
+                return None
+            finally:
+                busy.discard(name)
         if isinstance(nd, (ast.Tuple, ast.List)):
             vs = [num(e) for e in nd.elts]
             if all(x is not None for x in vs):
@@ -299,6 +310,21 @@ def _roles(w, f, body):
     for e in pre.events:
         if e.kind == 'assign' and isinstance(e.value, Rat) and e.value.isconst() and e.name not in cands:
             cands[e.name] = float(e.value.constval())
+    # module-level constants the function reads directly
+    if w.global_lookup is not None:
+        for nd in ast.walk(f.node):
+            if isinstance(nd, ast.Name) and isinstance(nd.ctx, ast.Load) and nd.id not in cands:
+                g = w.global_lookup(nd.id)
+                if isinstance(g, Rat) and g.isconst():
+                    cands[nd.id] = float(g.constval())
+                elif isinstance(g, (tuple, list)):
+                    for k_, x in enumerate(g):
+                        if isinstance(x, Rat) and x.isconst():
+                            cands['%s[%d]' % (nd.id, k_)] = float(x.constval())
+                elif isinstance(g, dict):
+                    for k_, x in g.items():
+                        if isinstance(x, Rat) and x.isconst():
+                            cands['%s[%r]' % (nd.id, k_)] = float(x.constval())
     for role, std in _L93.items():
         near = [(nm, v) for nm, v in cands.items() if abs(v - std) <= 1e-6 * max(1.0, abs(std))]
         if near:
